@@ -318,6 +318,40 @@ theorem scanformat_spec (rest : Bytes) (hz : ∀ c ∈ rest, c ≠ 0) :
           obtain ⟨rfl, rfl, rfl⟩ := h
           exact hf.2 hd'
 
+/-- ★ the reference formatter raises on a directive exactly where `scanformat` does: if the scanner raises (≥ 6 flags, a
+    third digit), `Format.go` — which reads the directive with the same expressions — stops with an error and the output
+    produced so far -/
+theorem go_error_of_scan_panic (fuel : Nat) (rest : Bytes) (hz : ∀ c ∈ rest, c ≠ 0) (c0 : Nat) (r0 : Bytes) (hr : rest = c0 :: r0)
+    (h37 : c0 ≠ 37) (a : FArg) (args : List FArg) (out : Bytes) (hs : scanformat rest = .panic) :
+    go (fuel + 1) (37 :: rest) (a :: args) out = .err out := by
+  have hpn : parse rest = none := by
+    cases hp : parse rest with
+    | none => rfl
+    | some t =>
+      obtain ⟨p, w, pr⟩ := t
+      obtain ⟨form, hok, _⟩ := (scanformat_spec rest hz).2 p w pr hp
+      rw [hok] at hs
+      exact absurd hs (by simp)
+  subst hr
+  unfold parse at hpn
+  simp only at hpn
+  unfold go
+  have h1 : ((37 : Nat) != 37) = false := by decide
+  simp only [h1, Bool.false_eq_true, if_false]
+  split
+  · rename_i heq; simp at heq
+  · rename_i heq; simp only [List.cons.injEq] at heq; exact absurd heq.1 h37
+  · by_cases h6 : ((c0 :: r0).takeWhile isFlag).length ≥ 6
+    · simp only [h6, if_true]
+    · simp only [h6, if_false] at hpn ⊢
+      unfold parseTail at hpn
+      split at hpn
+      · rename_i conv tl heq
+        by_cases hd : isDigit conv = true
+        · simp only [heq, hd, if_true]
+        · simp [hd] at hpn
+      · simp at hpn
+
 example : scanformat [45, 48, 49, 50, 46, 51, 100, 65]
     = .ok { p := 6, width := [49, 50], precision := [51], form := [37, 45, 48, 49, 50, 46, 51, 108, 100] } ∧
     scanformat [45, 45, 45, 45, 45, 45, 100] = .panic ∧ scanformat [49, 50, 51, 100] = .panic := by decide
